@@ -7,7 +7,7 @@ EXPL = "exploration"
 # id -> (technique, level text, level note, design ref)
 CHECKS = {
  "C01": ("runtime monitoring: outcome sets of the real loom::model on generated programs vs. an explicit-state interleaving reference (set-level oracle)",
-         "Exploration: every program of an enumerated core plus seeded random programs is run under the real loom::model; the set of per-iteration results recorded at the client boundary must contain every result the interleaving reference computes. Bounded programs only.",
+         "Exploration: every program of an enumerated core plus seeded random programs is run under the real loom::model; the set of per-iteration results recorded at the client boundary must contain every result the interleaving reference computes. Bounded programs only. Also the Arc programs of C11 (completeness clause only) and pinned programs in which a thread yields while nobody else can run.",
          "trusted: harness interpreter (lit.rs, sync.rs), reference machines (rc11.rs outcomes_sc, refm.rs); straight-line programs <= 9 ops / 4 threads", "§5-C01"),
  "C02": ("runtime monitoring: outcome sets of the real loom vs. an axiomatic RC11 enumerator (strong variant), known finding matched by witness-feature signature",
          "Exploration: litmus programs (exhaustive small families + classics in every ordering + random) run under loom; every outcome RC11 (as published, sb∪rf acyclic) allows must be produced by some iteration.",
@@ -18,13 +18,13 @@ CHECKS = {
 }
 CHECKS.update({
  "C05": ("runtime monitoring: loom::model's verdict (panic classifier) on generated blocking programs vs. can_deadlock of an explicit-state reference machine; worker-process deaths are violations",
-         "Exploration: an exhaustive core of 2-thread programs over mutexes/park/unpark/join plus random programs over all blocking primitives (some sharing objects through loom::sync::Arc); loom must report a deadlock exactly when the reference machine can reach one, and must neither panic internally nor kill the process. Also textbook condvar predicate loops (CvWaitUntil), deadlocks that need a try_lock to fail, and a clean-up guard in every thread whose destructor performs a loom operation while the thread unwinds (the model must still fail with the deadlock report, not abort).",
+         "Exploration: an exhaustive core of 2-thread programs over mutexes/park/unpark/join plus random programs over all blocking primitives (some sharing objects through loom::sync::Arc); loom must report a deadlock exactly when the reference machine can reach one, and must neither panic internally nor kill the process. Also textbook condvar predicate loops (CvWaitUntil), deadlocks that need a try_lock to fail, and a clean-up guard in every thread whose destructor performs a loom operation while the thread unwinds (the model must still fail with the deadlock report, not abort). Also lock-order inversions whose second party is released by a third thread (message, unpark, notification, thread exit).",
          "trusted: sync.rs reference machine (documented std semantics) and interpreter; programs <= 4 threads x <= 4 ops", "§5-C05"),
  "C07": ("runtime monitoring: per-iteration client-boundary log replayed on a reference lock machine (exclusion, blocking, try-exactness), value conservation, loom's race detector as happens-before witness, outcome sets vs. reference",
          "Exploration: exhaustive 2-thread core over a mutex and a rwlock with try variants + random programs (nested sections, counters, cells under the locks); every return in every iteration must be a step the reference allows at that instant, outcome sets must equal the reference's.",
          "trusted: sync.rs reference machine, replay monitor, interpreter", "§5-C07"),
  "C08": ("runtime monitoring: per-iteration log replayed on the reference machine (a wait may only return when notified / token present / thread exited / the single spurious Notify return), deadlock verdict and outcome sets vs. reference, race detector as hb witness",
-         "Exploration: exhaustive 2-thread core over park/unpark, a mutex, join, Notify + pinned condvar programs whose waiters are known to be waiting (flags set under the mutex, main spins) + random programs with condvar waiters, relaxed-flag protocols with value-dependent control flow, early/late/double notifications and notifications aimed at threads blocked elsewhere.",
+         "Exploration: exhaustive 2-thread core over park/unpark, a mutex, join, Notify + pinned condvar programs whose waiters are known to be waiting (flags set under the mutex, main spins) + random programs with condvar waiters, relaxed-flag protocols with value-dependent control flow, early/late/double notifications and notifications aimed at threads blocked elsewhere. Also wait-then-check loops on a relaxed flag (the reference's stale set for relaxed loads respects happens-before).",
          "trusted: sync.rs reference machine (FIFO condvar for completeness, any waiter for soundness), replay monitor", "§5-C08"),
  "C09": ("runtime monitoring: exactly-once / FIFO checker over unique message ids via log replay on a reference queue, leak/deadlock verdicts and outcome sets vs. reference, race detector as hb witness (including the no-over-synchronisation direction)",
          "Exploration: every program with <= 2 senders x <= 2 sends x <= 3 receives (recv/try_recv) + random programs with cells, receiver dropped or forgotten at the end. Also programs whose owner drops the receiver early (DropRx): queued messages are drained, later sends fail and are not leaks.",
@@ -33,46 +33,46 @@ CHECKS.update({
          "Fault enumeration over crash points: every stop point k x 5 checkpoint intervals through a real checkpoint file (also with preemption bounds 1 and 2, and on blocking programs with spurious-wake branches), process aborts at the start / in the middle of an iteration resumed in a fresh process, failing iterations reloaded from their checkpoint, and a destructor-order probe (thread-locals whose destructors perform loom operations, compared across runs and fresh processes). Also SeqCst-fence litmus shapes among the stop/resume programs and the per-job panic-state monitor.",
          "trusted: lit.rs interpreter, iteration hook; crash during loom's own file write is not injected", "§5-C13"),
  "C14": ("runtime monitoring: online trie monitor over the decision path of every iteration (iteration hook): distinctness, prefix contiguity (depth-first), ordered alternatives, nothing left unexplored, hook calls = iterations",
-         "Exploration: classic litmus shapes + random litmus programs (schedule and load branches) and random blocking programs (spurious-wake branches, disabled threads); every iteration of every model run is checked. Every fourth program is also run with decisions recorded while exploration is off (regions, skip_branch): such decisions must never be advanced.",
+         "Exploration: classic litmus shapes + random litmus programs (schedule and load branches) and random blocking programs (spurious-wake branches, disabled threads); every iteration of every model run is checked. Every fourth program is also run with decisions recorded while exploration is off (regions, skip_branch): such decisions must never be advanced. Also: the candidates of a load decision are pairwise different, programs whose store history has wrapped, exploration switched on only after the spawns (expect_explicit_explore), and the control runs repeated under preemption bounds 0 and 1.",
          "trusted: pathmon.rs, verif-hooks snapshot; termination only in bounded form (iteration cap)", "§5-C14"),
  "C15": ("runtime monitoring: preemptions counted independently of loom (from decision paths and from the client-boundary log) for bounds 0..6 and a bound >= #operations; result-set inclusions between bounds and the unbounded run",
-         "Exploration: 9 model runs per program over classic + random litmus programs. Also blocking programs (all clauses) and blocking programs with yields (first clause only: preemptions counted from the decision paths).",
+         "Exploration: 9 model runs per program over classic + random litmus programs. Also blocking programs (all clauses) and blocking programs with yields (first clause only: preemptions counted from the decision paths). Also pinned programs with a load decision directly followed by the spurious decision of a Notify wait.",
          "trusted: pathmon.rs preemption counter, lit.rs interpreter", "§5-C15"),
  "C19": ("runtime monitoring: decision-path trie (no alternative explored at a branch taken with exploration disabled), metamorphic result-set comparisons for six control placements, exact-need probes for max_branches / max_permutations / max_duration / max_threads",
-         "Exploration: ~22 model runs per program over classic + random litmus programs (eight placements of the controls, incl. a region right after an explorable decision with the lower bound that every placement of the region among the other threads is still explored, and stop_exploring() as the last call of an iteration) plus child-process probes of max_threads. Also skip_branch followed by explore (placements 9/10), every max_branches in the upper half below the need, and the limits applied to runs resumed from a checkpoint. Also both limits (max_permutations and max_duration) set at once.",
+         "Exploration: ~22 model runs per program over classic + random litmus programs (eight placements of the controls, incl. a region right after an explorable decision with the lower bound that every placement of the region among the other threads is still explored, and stop_exploring() as the last call of an iteration) plus child-process probes of max_threads. Also skip_branch followed by explore (placements 9/10), every max_branches in the upper half below the need, and the limits applied to runs resumed from a checkpoint. Also both limits (max_permutations and max_duration) set at once. ",
          "trusted: pathmon.rs, lit.rs interpreter; equality only demanded where the region provably holds no two-alternative decision", "§5-C19"),
 })
 CHECKS.update({
  "C04": ("runtime monitoring: loom::model's causality-violation verdict on generated programs vs. an independent happens-before computation (axiomatic race oracle for atomics idioms, vector-clock reference machine for lock/channel/park/notify idioms)",
-         "Exploration: enumerated message-passing idioms (1-2 hops, RMW chains, fence pairs, spawn/join, unsync_load) in every ordering assignment + random programs; loom must report a race iff some consistent execution has two conflicting accesses unordered by happens-before (strong/weak gap decides nothing). Also closure-long cell accesses that publish a flag from inside the closure (CellHold) and every assignment of read-guard/write-guard/mutex blocks over one cell to 3 threads. Also two queued channel messages with the read after the first receive only (gated on relaxed flags), and an Arc part: which Arc operations are synchronisation edges (release of a handle, then failing/successful try_unwrap, clone+drop, increment+decrement, behind a relaxed flag).",
+         "Exploration: enumerated message-passing idioms (1-2 hops, RMW chains, fence pairs, spawn/join, unsync_load) in every ordering assignment + random programs; loom must report a race iff some consistent execution has two conflicting accesses unordered by happens-before (strong/weak gap decides nothing). Also closure-long cell accesses that publish a flag from inside the closure (CellHold) and every assignment of read-guard/write-guard/mutex blocks over one cell to 3 threads. Also two queued channel messages with the read after the first receive only (gated on relaxed flags), and an Arc part: which Arc operations are synchronisation edges (release of a handle, then failing/successful try_unwrap, clone+drop, increment+decrement, behind a relaxed flag). Also Atomic::with_mut as an access that lasts for its whole closure.",
          "trusted: rc11.rs race_verdict, sync.rs reference machine; await loops modelled as blocking reads", "§5-C04"),
  "C06": ("runtime monitoring with fault injection: user assertions injected at crash points (any thread, while holding guards, inside with_mut closures, while others are blocked, before a spawned thread ran, at the branch limit); catch_unwind verdict vs. reachable failures of the reference machine; worker survival; probe model compared with its fresh-process record",
-         "Fault enumeration: every program carries one or more injected failures; loom::model must unwind with a reachable failure (never return normally, never kill the process), return normally when none is reachable, and leave the process clean for the next model. Also failures raised while the thread owns objects whose destructors lock a held mutex (FailDropLock), while threads have live thread-locals with loom operations in their destructors (Tls), crash points at max_branches = L-1, 2L/3, L/2, the thread-local/lazy-static programs (none can fail), and a per-job monitor that std::thread::panicking() is false after every model returned.",
+         "Fault enumeration: every program carries one or more injected failures; loom::model must unwind with a reachable failure (never return normally, never kill the process), return normally when none is reachable, and leave the process clean for the next model. Also failures raised while the thread owns objects whose destructors lock a held mutex (FailDropLock), while threads have live thread-locals with loom operations in their destructors (Tls), crash points at max_branches = L-1, 2L/3, L/2, the thread-local/lazy-static programs (none can fail), and a per-job monitor that std::thread::panicking() is false after every model returned. The unwind guard every thread owns performs an rmw, a load, a store and an unsync_load while unwinding. One pinned program with two failures in one execution is an open known finding (identified by input).",
          "trusted: sync.rs reference machine, panic classifier; when several failure kinds are reachable any is accepted", "§5-C06"),
 })
 CHECKS.update({
  "C10": ("runtime monitoring with leak injection: loom::model's leak verdict (panic classifier) vs. the live set of a reference-count / allocation / message-queue machine at the end of every interleaving",
-         "Exploration: Arc handles, Track values, raw allocations and channel messages created, moved, dropped, forgotten or leaked schedule-dependently in 2-3 threads; loom must report a leak of a reachable kind iff some schedule ends with a live object. Also early receiver drops (DropRx), releases performed by destructors inside a catch_unwind of the program itself. Also detached children whose unclaimed return value is the first user of a thread-local owning tracked objects, and handles given back through into_raw + decrement_strong_count.",
+         "Exploration: Arc handles, Track values, raw allocations and channel messages created, moved, dropped, forgotten or leaked schedule-dependently in 2-3 threads; loom must report a leak of a reachable kind iff some schedule ends with a live object. Also early receiver drops (DropRx), releases performed by destructors inside a catch_unwind of the program itself. Also detached children whose unclaimed return value is the first user of a thread-local owning tracked objects, and handles given back through into_raw + decrement_strong_count. Also one handle reached by reference from every thread.",
          "trusted: arcs.rs / sync.rs reference machines, panic classifier", "§5-C10"),
  "C11": ("runtime monitoring: every returned count / Option / Result replayed on a reference-count machine in log order, drop-exactly-once counter on the payload, result sets vs. reference, loom's race detector on a payload cell as witness of the drop ordering",
-         "Exploration: exhaustive 2-thread core over clone/drop/strong_count/get_mut + try_unwrap, raw round trips, increment/decrement_strong_count + random programs (<= 8 handle operations). A successful get_mut writes the payload through the &mut it returns (happens-before from the earlier owners' reads). Also RawDrop (into_raw + decrement_strong_count as the release of a handle) and detached children.",
+         "Exploration: exhaustive 2-thread core over clone/drop/strong_count/get_mut + try_unwrap, raw round trips, increment/decrement_strong_count + random programs (<= 8 handle operations). A successful get_mut writes the payload through the &mut it returns (happens-before from the earlier owners' reads). Also RawDrop (into_raw + decrement_strong_count as the release of a handle) and detached children. Also one handle that all threads reach by reference (inspections and clones of the sole handle from different threads).",
          "trusted: arcs.rs reference-count machine, replay, interpreter (handles created before the first spawn)", "§5-C11"),
 })
 CHECKS.update({
  "C12": ("runtime monitoring: differential execution against std::sync::atomic as the sequential model, comparison after every operation",
-         "Exploration: 600 000 (quick) / 24 M (thorough) random operation sequences over all twelve atomic types, boundary-biased operands, all valid orderings. fetch_update is also driven with stateful FnMut closures (recorded arguments, call count).",
+         "Exploration: 600 000 (quick) / 24 M (thorough) random operation sequences over all twelve atomic types, boundary-biased operands, all valid orderings. fetch_update is also driven with stateful FnMut closures (recorded arguments, call count). with_mut closures may write and then panic inside a catch_unwind of the program.",
          "trusted: std atomics; compare_exchange_weak compared with std's strong variant", "§5-C12"),
  "C16": ("runtime monitoring: complete per-iteration records (outcomes, execution orders, decision paths, thread ids, initial-state probes) of the same programs compared between a fresh process, the same process after failed models, and an OS thread surrounded by other OS threads running models",
-         "Exploration over pairs/mixes of programs with fault injection (seven kinds of failing models run in between), plus pristine-replay probes: every k-th iteration of programs with SeqCst fences / exploration controls is re-run from its checkpoint (pristine state) and must reproduce the uninterrupted run. Also pristine-replay probes over blocking programs with yields, and the thread-local/lazy-static programs with a per-iteration monitor (lazy statics are dropped in this iteration's initialisation order).",
+         "Exploration over pairs/mixes of programs with fault injection (seven kinds of failing models run in between), plus pristine-replay probes: every k-th iteration of programs with SeqCst fences / exploration controls is re-run from its checkpoint (pristine state) and must reproduce the uninterrupted run. Also pristine-replay probes over blocking programs with yields, and the thread-local/lazy-static programs with a per-iteration monitor (lazy statics are dropped in this iteration's initialisation order). Also a 5-thread probe (what the first iteration may do every later one may).",
          "trusted: record digests, iteration hook; sanitizer lanes (TSan for the concurrent part, memcheck) are extra commands of the thorough tier", "§5-C16"),
  "C17": ("runtime monitoring: init/drop counters in std atomics checked per iteration at the iteration hook, ownership marks, instance addresses, try_with inside destructors, loom's race detector on data written inside a lazy static's init",
          "Exploration: exhaustive 2-thread core of static accesses + random programs with racing first accesses. Also destructors that start with a scheduling point with a monitor in the joiner (after join(t) every thread-local of t has been dropped) and the initialisation count of a lazy static whose initialiser yields (open known finding). Also first users of a thread-local that come after the thread's ordinary destructor pass (a lazy static's destructor in main, the unclaimed return value of a detached thread); the late thread-local owns a loom Arc, so a value destroyed outside the execution also shows in the leak check.",
          "trusted: counters, iteration hook", "§5-C17"),
  "C18": ("runtime monitoring: outcome sets of programs with yielding spin loops vs. the axiomatic reference with an await as a blocking read; panic classifier for the branch limit",
-         "Exploration: enumerated await shapes in every ordering pair + random programs + never-true loops. The await's result carries a 'spun' bit and loop bodies can announce the wait with a store; for every set of awaits that spun the reference is the program with one explicit failed load (+ body store) before them; loom's documented yield rule is an exemption from the must-set only (open known finding on combinations with other threads' observations). Also an rmwspin part: await loops whose check is a read-modify-write (swap test-and-set, fetch_add(0), fetch_or, CAS loop) in 3 ordering pairs, waiter in main/child, yield_now/spin_loop, a test-and-set lock around a cell, never-released loops.",
+         "Exploration: enumerated await shapes in every ordering pair + random programs + never-true loops. The await's result carries a 'spun' bit and loop bodies can announce the wait with a store; for every set of awaits that spun the reference is the program with one explicit failed load (+ body store) before them; loom's documented yield rule is an exemption from the must-set only (open known finding on combinations with other threads' observations). Also an rmwspin part: await loops whose check is a read-modify-write (swap test-and-set, fetch_add(0), fetch_or, CAS loop) in 3 ordering pairs, waiter in main/child, yield_now/spin_loop, a test-and-set lock around a cell, never-released loops. ",
          "trusted: rc11.rs, lit.rs interpreter", "§5-C18"),
  "C20": ("runtime monitoring: block_on verdict (return value / deadlock panic) vs. an explicit-state model of poll/wait/wake, poll and wake counters, unique-id wakers registered in AtomicWaker",
-         "Exploration: every waking script of <= 3 steps for both waker-publication protocols, with and without the re-check, 1-2 waking threads, one flag per waker, relaxed flags, and the direct protocol (waker clones handed to threads spawned at the first poll, so only the wake orders the flag before the re-poll). Also polls that wake themselves through the borrowed waker and return Pending (yield_now().await), and a counter incremented by every waker.",
+         "Exploration: every waking script of <= 3 steps for both waker-publication protocols, with and without the re-check, 1-2 waking threads, one flag per waker, relaxed flags, and the direct protocol (waker clones handed to threads spawned at the first poll, so only the wake orders the flag before the re-poll). Also polls that wake themselves through the borrowed waker and return Pending (yield_now().await), and a counter incremented by every waker. Also a stale waker left over from an earlier block_on on the same thread.",
          "trusted: fam_fut.rs reference model", "§5-C20"),
 })
 NOT_YET = {}
